@@ -240,7 +240,7 @@ func (w *world) main() {
 	w.tr = encoding.NewTransport(&encoding.TransportConfig{Transport: w.link.Server, Encoding: protobuf.NewEncoding()})
 	vsched.Go("h:peer", w.peer)
 	ctr := encoding.NewTransport(&encoding.TransportConfig{Transport: w.link.Client, Encoding: protobuf.NewEncoding()})
-	c, err := wire.Connect(&wire.ClientConnConfig{Transport: ctr, ProtocolVersion: "2.0.0", NodeID: "n"})
+	c, err := wire.Connect(&wire.ClientConnConfig{Transport: ctr, ProtocolVersion: "2.0.0", NodeID: "n", PingInterval: time.Second, PingTimeout: time.Second})
 	if err != nil {
 		w.connErr = err
 		return
@@ -280,6 +280,9 @@ func (w *world) main() {
 		})
 	}
 	wg.Wait()
+	w.phase = "idle"
+	// the connection outlives a few keep-alive intervals: later pings are requests with ids of their own
+	vsched.Sleep(2500*time.Millisecond, "h:idle")
 	w.phase = "closing"
 	c.Close()
 	w.phase = "done"
